@@ -9,14 +9,14 @@
 (***************************************************************************)
 EXTENDS Naturals, TLC
 Kinds == {"none", "blank", "comment", "cookie", "code", "codecookie", "strcookie"}
-Encs == {"utf-8", "latin-1", "ascii", "iso-8859-15", "utf8", "no-such-codec"}
+Encs == {"utf-8", "latin-1", "ascii", "iso-8859-15", "utf8", "no-such-codec", "utf-8-unix", "Latin_1-dos", "iso-8859-10"}
 LineClasses == {[kind |-> k, enc |-> ""] : k \in {"none", "blank", "comment", "code"}}
                \cup {[kind |-> k, enc |-> e] : k \in {"cookie", "codecookie", "strcookie"}, e \in Encs}
 Third == {[kind |-> "none", enc |-> ""], [kind |-> "cookie", enc |-> "latin-1"],
           [kind |-> "codecookie", enc |-> "no-such-codec"], [kind |-> "strcookie", enc |-> "latin-1"]}
 VARIABLES l1, l2, l3, bom, body
 Init == /\ l1 \in LineClasses /\ l2 \in LineClasses /\ l3 \in Third /\ bom \in BOOLEAN
-        /\ body \in {"ascii", "utf8", "latin1"}
+        /\ body \in {"ascii", "utf8", "latin1", "high"}
         /\ (l1.kind = "none" => l2.kind = "none")
         /\ (l2.kind = "none" => l3.kind = "none")
 Next == UNCHANGED <<l1, l2, l3, bom, body>>
